@@ -119,18 +119,30 @@ type eResult struct {
 	nontriv bool
 }
 
+// eObs is what one run of the real loadTasks on a mix showed.
+type eObs struct {
+	got      []string
+	loadErr  error
+	panicked string
+}
+
 func eExec(m mix) (res eResult) {
 	snap, err := eSnapshot()
 	if err != nil {
 		res.harness = "snapshot: " + err.Error()
 		return
 	}
-	want := reference(m)
-	res.nontriv = want.Err || len(want.Tasks) > 0
+	alts := resolve(m)
+	var wants []refResult
+	rejectable := false // a start-up error is one of the acceptable behaviours
+	for _, a := range alts {
+		r := reference(a)
+		wants = append(wants, r)
+		rejectable = rejectable || r.Dup || r.DupOff
+		res.nontriv = res.nontriv || r.Err || len(r.Tasks) > 0
+	}
 	w := world.New(nil, world.Cfg{Snap: snap})
-	var got []string
-	var loadErr error
-	panicked := ""
+	var o eObs
 	w.Run(func() {
 		if err := seedDB(w, m); err != nil {
 			w.HarnessErr = err.Error()
@@ -138,8 +150,8 @@ func eExec(m mix) (res eResult) {
 		}
 		conf, err := world.ParseConf(fileConf(m, ""))
 		if err != nil {
-			if want.Dup || want.DupOff {
-				loadErr = fmt.Errorf("config file rejected at start-up: %w", err)
+			if rejectable {
+				o.loadErr = fmt.Errorf("config file rejected at start-up: %w", err)
 				return
 			}
 			w.HarnessErr = "config: " + err.Error()
@@ -148,15 +160,13 @@ func eExec(m mix) (res eResult) {
 		func() {
 			defer func() {
 				if r := recover(); r != nil {
-					panicked = fmt.Sprint(r)
+					o.panicked = fmt.Sprint(r)
 				}
 			}()
 			ts, err := w.LoadTasks(conf)
-			loadErr = err
-			if err == nil {
-				got = renderTasks(ts)
-			} else if ts != nil {
-				got = renderTasks(ts)
+			o.loadErr = err
+			if ts != nil {
+				o.got = renderTasks(ts)
 			}
 		}()
 	})
@@ -164,6 +174,46 @@ func eExec(m mix) (res eResult) {
 		res.harness = w.HarnessErr
 		return
 	}
+	// acceptable when ANY reading of the mix accepts the observation
+	var first eResult
+	for i, want := range wants {
+		r := eJudge(alts[i], want, o)
+		if r.vio == nil {
+			res.outcome = r.outcome
+			if len(alts) > 1 {
+				res.outcome += ":duplicate-name"
+			}
+			return
+		}
+		if i == 0 {
+			first = r
+		}
+	}
+	res.vio, res.outcome = first.vio, first.outcome
+	if m.dupNames() {
+		perPair := map[string]int{}
+		twice := ""
+		for _, g := range o.got {
+			pair := strings.SplitN(g, " ", 2)[0]
+			if perPair[pair]++; perPair[pair] > 1 && (twice == "" || pair < twice) {
+				twice = pair
+			}
+		}
+		if twice != "" && o.loadErr == nil {
+			res.vio.Class, res.vio.Key = "duplicate-pair", "E:task-set:duplicate-name:two-tasks-for-one-pair"
+			res.vio.Detail = fmt.Sprintf("an integration name occurs twice in the configuration (entries of one name are ONE integration) and loadTasks returned %d tasks for the ONE pair %s\n%s", perPair[twice], twice, res.vio.Detail)
+			res.outcome = "VIOLATION:duplicate-pair"
+		} else {
+			res.vio.Key += ":duplicate-name"
+			res.vio.Detail = fmt.Sprintf("(none of the %d acceptable readings of the repeated name matches; shown: the first)\n%s", len(alts), res.vio.Detail)
+		}
+	}
+	return
+}
+
+// eJudge judges one observation against the reference of one reading of the mix.
+func eJudge(m mix, want refResult, o eObs) (res eResult) {
+	got, loadErr, panicked := o.got, o.loadErr, o.panicked
 	vio := func(class, key, detail string) {
 		res.vio = &fw.Violation{Property: "C20", Class: class, Key: key, Detail: detail}
 		res.outcome = "VIOLATION:" + class
@@ -286,6 +336,7 @@ func eJobs(thorough bool) []eJob {
 	}
 	jobs = append(jobs, familyJobs()...)
 	jobs = append(jobs, dupJobs()...)
+	jobs = append(jobs, dupNameJobs()...)
 	return jobs
 }
 
@@ -438,6 +489,69 @@ func dupJobs() []eJob {
 								m.Stored = stored
 								j.Mixes = append(j.Mixes, m)
 							}
+						}
+					}
+				}
+				jobs = append(jobs, j)
+			}
+		}
+	}
+	return jobs
+}
+
+// ---- the same integration NAME more than once --------------------------------------------------------
+//
+// shovel.integrations has no unique index on name and the dashboard's save is a plain insert: saving an
+// integration again leaves two rows of one name. Entries of one name are one integration (see resolve).
+// dupNameJobs: second entry {identical, other range, other source, disabled, unknown source, two sources}
+// x {two rows, the rows in the other order, three rows, twice in the file (both orders), a plain file
+// integration of that name over the two rows} x second plain integration {absent, database} x s1 in
+// file/database x batch/concurrency x stored form.
+func dupNameJobs() []eJob {
+	rr := func(n string, a, z uint64) refSpec { return refSpec{Name: n, Start: a, Stop: z} }
+	row1 := igSpec{Name: "iga", Enabled: true, Refs: []refSpec{rr("s1", 10, 20)}}
+	seconds := []igSpec{
+		{Name: "iga", Enabled: true, Refs: []refSpec{rr("s1", 10, 20)}},
+		{Name: "iga", Enabled: true, Refs: []refSpec{rr("s1", 30, 40)}},
+		{Name: "iga", Enabled: true, Refs: []refSpec{rr("s2", 11, 21)}},
+		{Name: "iga", Enabled: false, Refs: []refSpec{rr("s1", 10, 20)}},
+		{Name: "iga", Enabled: true, Refs: []refSpec{rr("sx", 12, 22)}},
+		{Name: "iga", Enabled: true, Refs: []refSpec{rr("s1", 50, 60), rr("s2", 51, 61)}},
+	}
+	var jobs []eJob
+	for _, row2 := range seconds {
+		for place := 0; place < 6; place++ {
+			for second := 0; second < 2; second++ {
+				var base mix
+				switch place {
+				case 0:
+					base.DBIGs = []igSpec{row1, row2}
+				case 1:
+					base.DBIGs = []igSpec{row2, row1}
+				case 2:
+					base.DBIGs = []igSpec{row1, row2, row1}
+				case 3:
+					base.FileIGs = []igSpec{row1, row2}
+				case 4:
+					base.FileIGs = []igSpec{row2, row1}
+				case 5:
+					base.FileIGs = []igSpec{{Name: "iga", Enabled: true, Refs: []refSpec{rr("s1", 70, 80)}}}
+					base.DBIGs = []igSpec{row1, row2}
+				}
+				if second == 1 {
+					base.DBIGs = append(base.DBIGs, *mkIG("igb", true, []string{"s1"}, 130))
+				}
+				var j eJob
+				for p1 := 1; p1 <= 2; p1++ {
+					for _, bc := range []bool{false, true} {
+						for _, stored := range []bool{false, true} {
+							if stored && len(base.DBIGs) == 0 {
+								continue
+							}
+							m := base
+							m.FileSrcs, m.DBSrcs = srcMix(p1, 1, bc)
+							m.Stored = stored
+							j.Mixes = append(j.Mixes, m)
 						}
 					}
 				}
